@@ -4,6 +4,7 @@ import (
 	"fmt"
 	"go/constant"
 	"go/types"
+	"os"
 	"sort"
 	"strings"
 	"sync"
@@ -177,7 +178,11 @@ func checkC08(c *Ctx) {
 		}
 		results := make([]c08result, len(cells))
 		var wg sync.WaitGroup
-		sem := make(chan bool, 16)
+		nPar := 16
+		if os.Getenv("ABSDEBUG") != "" {
+			nPar = 1 // the debugging profiles are global
+		}
+		sem := make(chan bool, nPar)
 		for ci := range cells {
 			wg.Add(1)
 			sem <- true
@@ -350,13 +355,30 @@ func runC08Cell(p *Program, cell c08cell, byName map[string]*ssa.Function, gette
 	res := c08result{cell: cell, isCat: map[int64]int{}}
 	ex := NewExec(p)
 	ex.Unroll = 8
+	ex.MaxPaths = 200000 // per query; the meta cell with an unbounded length prefix (FF 7F, len >= 9) needs ~12500 on the unchanged tree
 	base := ex.NewState()
 	msg := mkCellMsg(ex, base, cell)
 	run := func(op string, fn *ssa.Function, mk func(st *State) []Val) []Outcome {
 		st := base.Clone()
 		args := append([]Val{msg}, mk(st)...)
+		ex.paths = 0 // the path budget is per query, not per cell
 		outs := ex.Call(st, fn, args, nil)
 		res.runs++
+		if os.Getenv("ABSDEBUG") != "" && ex.paths > 1000 {
+			fmt.Fprintf(os.Stderr, "c08 paths %6d %s %s\n", ex.paths, op, cell.String())
+		}
+		if (ex.Budget || ex.paths > 5000) && os.Getenv("ABSDEBUG") != "" {
+			forkProfile = map[string]int{}
+			ex.Budget = false
+			ex.paths = 0
+			ex.Call(base.Clone(), fn, append([]Val{msg}, mk(base.Clone())...), nil)
+			for k, v := range forkProfile {
+				if v > 20 {
+					fmt.Fprintf(os.Stderr, "fork %6d %s\n", v, k)
+				}
+			}
+			forkProfile = nil
+		}
 		if ex.Budget {
 			res.problems = append(res.problems, op+"| abstract interpretation exceeded its budget")
 			ex.Budget = false
@@ -396,8 +418,54 @@ func runC08Cell(p *Program, cell c08cell, byName map[string]*ssa.Function, gette
 	if fn := byName["IsPlayable"]; fn != nil {
 		run("IsPlayable", fn, none)
 	}
+	// String chains every accessor: with full unrolling the partitions of a length prefix of unknown size multiply
+	// through the chain (12500 paths on the unchanged tree, beyond any budget after a harmless restructuring). Only
+	// totality is asked of String, so it is run with one generic iteration per loop (inductive invariants) instead.
 	if fn := byName["String"]; fn != nil {
-		run("String", fn, none)
+		ex2 := NewExec(p)
+		ex2.Unroll = 1
+		ex2.WidenAtEntry = true
+		ex2.MaxPaths = 200000
+		base2 := ex2.NewState()
+		msg2 := mkCellMsg(ex2, base2, cell)
+		if os.Getenv("ABSDEBUG") != "" && cell.lenClass == 9 && cell.b0 == 0xFF && cell.b1 == 0x7F && fn.Pkg.Pkg.Name() == "smf" {
+			callProfile = map[string]int{}
+			forkProfile = map[string]int{}
+		}
+		outs := ex2.Call(base2, fn, []Val{msg2}, nil)
+		if callProfile != nil {
+			for k, v := range callProfile {
+				fmt.Fprintf(os.Stderr, "calls %6d %s\n", v, k)
+			}
+			tot := 0
+			for k, v := range forkProfile {
+				tot += v
+				if v > 5 {
+					fmt.Fprintf(os.Stderr, "fork %6d %s\n", v, k)
+				}
+			}
+			fmt.Fprintf(os.Stderr, "fork-total %d paths %d\n", tot, ex2.paths)
+			callProfile, forkProfile = nil, nil
+		}
+		res.runs++
+		if os.Getenv("ABSDEBUG") != "" && ex2.paths > 1000 {
+			fmt.Fprintf(os.Stderr, "c08 paths %6d String %s\n", ex2.paths, cell.String())
+		}
+		if ex2.Budget {
+			res.problems = append(res.problems, "String| abstract interpretation exceeded its budget")
+		}
+		for u := range ex2.Unsupported {
+			if !strings.HasPrefix(u, "recursion-or-depth") {
+				res.problems = append(res.problems, "String| unmodelled construct: "+u)
+			}
+		}
+		for _, o := range outs {
+			if o.Panic {
+				res.problems = append(res.problems, "String| reachable panic: "+o.Msg+" @"+o.Pos+" ["+outcomeWitness(o)+"]")
+			} else if pe := problemEvents(o.St.Events); len(pe) > 0 {
+				res.problems = append(res.problems, "String| "+fmtEvents(pe))
+			}
+		}
 	}
 	if fn := byName["Is"]; fn != nil {
 		run("Is", fn, func(st *State) []Val { return []Val{mkSym(ex.syms.Get("checker", 8, true))} })
